@@ -243,8 +243,10 @@ class Campaign:
                     ctx.violation("C04:patch-operand", "patch %r: symbolic operands %s, the text says %s" % (src["asm"], got, want), case)
         if self.facet == "C03":
             if emodify.runs_off_end(case):
-                ctx.count("out-of-domain:code-runs-off-the-end")
-                return
+                # the edited listing has code running into data or off its section: what its control flow is, the
+                # property does not say - but its last clause (no edge starts or ends outside the module) still does
+                ctx.count("out-of-domain:code-runs-off-the-end (edge endpoints only)")
+                case = dict(case, _closure_only=True)
             reqs = [{"op": "cfg_check", "ir": o["after"], "insns": emodify.decode_insns(o["after"]), "nop": emodify.nop_bytes(case),
                      "old_proxies": o["before"]["proxies"],
                      "proxy_deletion": any(e.get("proxy") for e in case.get("edits", []))}]
@@ -353,6 +355,8 @@ class Campaign:
                 ctx.mismatch("the listing specification could not be evaluated: %s" % (a.get("err"),), case)
                 continue
             for issue in a[self.facet]:
+                if case.get("_closure_only") and issue["kind"] != "edge-endpoint":
+                    continue
                 sig = "%s:%s" % (self.facet, issue["kind"])
                 if self.facet == "C02" and trailing_label_finding(case, o, issue):
                     sig = "C02:" + SIG_TRAILING_LABEL
@@ -408,8 +412,9 @@ def run(ctx, facet, quick, thorough, with_corr=True):
         ctx.count("corpus")
         camp.add(c)
     n = ctx.budget(quick, thorough)
-    for _ in range(n):
-        camp.add(emodify.gen_case(ctx.rng, cfg_domain=(facet == "C03")))
+    for k in range(n):
+        # C03: mostly listings whose control flow is defined; every sixth one may run off its end (closure clause only)
+        camp.add(emodify.gen_case(ctx.rng, cfg_domain=(facet == "C03" and k % 6 != 0)))
     camp.flush()
 
 
